@@ -1,0 +1,35 @@
+//go:build verif
+
+package limit
+
+import "math"
+
+// Read-only accessors for the verification harness in /verif (build tag "verif" only).
+
+// VerifState returns the bit pattern of the stored estimate, of the current probe jitter, and the probe counter.
+func (l *VegasLimit) VerifState() (estBits uint64, jitterBits uint64, probeCount int64) {
+	l.mu.RLock()
+	defer l.mu.RUnlock()
+	return math.Float64bits(l.estimatedLimit), math.Float64bits(l.probeJitter), l.probeCount
+}
+
+// VerifState returns the bit pattern of the stored estimate and the probe countdown.
+func (l *GradientLimit) VerifState() (estBits uint64, counter int) {
+	l.mu.RLock()
+	defer l.mu.RUnlock()
+	return math.Float64bits(l.estimatedLimit), l.resetRTTCounter
+}
+
+// VerifState returns the bit pattern of the stored estimate.
+func (l *Gradient2Limit) VerifState() (estBits uint64) {
+	l.mu.RLock()
+	defer l.mu.RUnlock()
+	return math.Float64bits(l.estimatedLimit)
+}
+
+// VerifNextUpdateTime returns the end of the current sampling window.
+func (l *WindowedLimit) VerifNextUpdateTime() int64 {
+	l.mu.RLock()
+	defer l.mu.RUnlock()
+	return l.nextUpdateTime
+}
